@@ -397,6 +397,30 @@ def delete_consumers(consumers):
                         "consumer with UUID %s: %s", consumer.uuid, err)
 
 
+def check_untouched_consumers(ctx, consumers, allocation_objects):
+    """Compare-and-swap consumers the allocation write did not visit.
+
+    replace_all() checks and increments the generation of the consumers that
+    appear in the allocation objects only. A consumer that was sent empty
+    allocations and has none (left) to remove does not appear there, so its
+    generation would never be compared with the stored one. Do that here,
+    in the same transaction, and remove the consumer if it holds nothing.
+
+    :param ctx: The placement context (inside a writer transaction).
+    :param consumers: iterable of the Consumer objects of the request
+    :param allocation_objects: the Allocation objects being written
+    :raises: `exception.ConcurrentUpdateDetected` if a racing request has
+             changed or removed such a consumer.
+    """
+    visited = set(alloc.consumer.uuid for alloc in allocation_objects)
+    untouched = [c for c in consumers if c.uuid not in visited]
+    for consumer in untouched:
+        consumer.increment_generation()
+    if untouched:
+        consumer_obj.delete_consumers_if_no_allocations(
+            ctx, [c.uuid for c in untouched])
+
+
 def _set_allocations_for_consumer(req, schema):
     context = req.environ['placement.context']
     context.can(policies.ALLOC_UPDATE)
@@ -479,6 +503,7 @@ def _set_allocations_for_consumer(req, schema):
         data_util.update_consumers([consumer], {consumer_uuid: request_attr})
 
         alloc_obj.replace_all(ctx, allocation_objects)
+        check_untouched_consumers(ctx, [consumer], allocation_objects)
         LOG.debug("Successfully wrote allocations %s", allocation_objects)
 
     def _create_allocations():
@@ -509,11 +534,6 @@ def _set_allocations_for_consumer(req, schema):
             'Inventory and/or allocations changed while attempting to '
             'allocate: %(error)s' % {'error': exc},
             comment=errors.CONCURRENT_UPDATE)
-
-    # A consumer auto-created for this request that was given no
-    # allocations (an empty allocations object) must not be left behind.
-    if created_new_consumer and not allocation_data:
-        delete_consumers([consumer])
 
     req.response.status = 204
     req.response.content_type = None
@@ -599,6 +619,7 @@ def set_allocations(req):
         data_util.update_consumers(consumers.values(), requested_attrs)
 
         alloc_obj.replace_all(ctx, allocations)
+        check_untouched_consumers(ctx, consumers.values(), allocations)
         LOG.debug("Successfully wrote allocations %s", allocations)
 
     def _create_allocations():
@@ -627,11 +648,6 @@ def set_allocations(req):
             'Inventory and/or allocations changed while attempting to '
             'allocate: %(error)s' % {'error': exc},
             comment=errors.CONCURRENT_UPDATE)
-
-    # Consumers auto-created for this request that were given no
-    # allocations (an empty allocations object) must not be left behind.
-    delete_consumers([consumer for consumer in new_consumers_created
-                      if not data[consumer.uuid]['allocations']])
 
     req.response.status = 204
     req.response.content_type = None
